@@ -368,3 +368,65 @@ Proof.
 Qed.
 
 End AStar.
+
+(* ---- closed statements ---- *)
+Lemma consistentb_sound g h : consistentb g h = true -> consistent g h.
+Proof.
+  unfold consistentb, consistent. intros H s Hs. rewrite forallb_forall in H.
+  specialize (H s ltac:(apply in_seq; lia)). apply andb_true_iff in H. destruct H as [H1 H2]. split.
+  - intros G. rewrite G in H1. now apply Z.eqb_eq.
+  - intros e He. rewrite forallb_forall in H2. specialize (H2 _ He). now apply Z.leb_le.
+Qed.
+
+Definition ord_ok (ord : nat -> list edge -> list edge) : Prop :=
+  (forall k l e, In e (ord k l) <-> In e l) /\ (forall k l, (length (ord k l) <= length l)%nat).
+
+Theorem astar_total g start ord h tbs :
+  wf_graph g -> (start < g_n g)%nat -> consistent g h -> ord_ok ord ->
+  match astar g start ord h tbs with
+  | Found path acts v _ => valid_plan g start (Some (path, acts, v))
+  | NoPlan _ => valid_plan g start None
+  | Broken | OutOfFuel => False
+  end.
+Proof.
+  intros Hwf Hs Hc [Ho1 Ho2].
+  pose proof (astar_sound_optimal g start ord h tbs Hwf Hs Hc Ho1) as H1.
+  pose proof (astar_terminates g start ord h tbs Hwf Hs Hc Ho1 Ho2) as H2.
+  destruct (astar g start ord h tbs); simpl in *; auto.
+Qed.
+
+(* sound + optimal: the returned path is a real path to a goal, its reported value is the sum of
+   its costs, and no path to any goal costs less *)
+Theorem astar_sound_optimal_found g start ord h tbs path acts v vis :
+  wf_graph g -> (start < g_n g)%nat -> consistent g h -> ord_ok ord ->
+  astar g start ord h tbs = Found path acts v vis ->
+  exists p u, walk g start p u /\ g_goal g u = true /\ verts start p = path /\ map e_act p = acts /\
+              cost p = v /\
+              (forall p' u', walk g start p' u' -> g_goal g u' = true -> v <= cost p').
+Proof.
+  intros Hwf Hs Hc Ho E. pose proof (astar_total g start ord h tbs Hwf Hs Hc Ho) as H. rewrite E in H. exact H.
+Qed.
+
+Theorem astar_complete g start ord h tbs :
+  wf_graph g -> (start < g_n g)%nat -> consistent g h -> ord_ok ord ->
+  ((exists vis, astar g start ord h tbs = NoPlan vis) <->
+   (forall p u, walk g start p u -> g_goal g u = false)).
+Proof.
+  intros Hwf Hs Hc Ho. pose proof (astar_total g start ord h tbs Hwf Hs Hc Ho) as H. split.
+  - intros [vis E]. rewrite E in H. exact H.
+  - intros Hn. destruct (astar g start ord h tbs) as [| |vis|path acts v vis]; try contradiction.
+    + eauto.
+    + destruct H as [p [u [W [G _]]]]. rewrite (Hn _ _ W) in G. discriminate.
+Qed.
+
+(* non-vacuity: a consistent non-zero heuristic (the exact distances) on the example graph; lifo
+   tie-breaking; the loop returns the cost-3 path through the zero-cost edge *)
+Example astar_example :
+  let hx := h_of [3; 2; 2; 0; 0] in
+  wf_graph ex_graph /\ (0 < g_n ex_graph)%nat /\ consistent ex_graph hx /\ ord_ok (fun _ l => l) /\
+  astar ex_graph 0 (fun _ l => l) hx tbs_lifo = Found [0; 1; 2; 3]%nat [0; 0; 0]%nat 3 [2; 1; 0]%nat.
+Proof.
+  split; [apply wf_graphb_sound; reflexivity|]. split; [simpl; lia|].
+  split; [apply consistentb_sound; reflexivity|].
+  split; [split; [intros k l e; tauto | intros k l; lia] | reflexivity].
+Qed.
